@@ -87,22 +87,70 @@ class RankFacts:
     """Known ranks of TD cells (from constructor shapes in _reset)."""
 
     def __init__(self):
-        self.cell_rank: Dict[str, int] = {}
+        # td['action'] is a [batch] index vector by the env API (RL4COEnvBase.step); everything else is learnt from constructors
+        self.cell_rank: Dict[str, int] = {"action": 1}
+        self.cell_unit_last: set = set()
 
     def learn_from_reset(self, td: "vg.TD"):
         for k, v in td.cells.items():
             r = self._ctor_rank(v)
+            if r is None:
+                r = self.rank(v)
             if r is not None:
                 self.cell_rank[k] = r
+                if self._ctor_unit_last(v) or self.unit_last(v):
+                    self.cell_unit_last.add(k)
+
+    def _ctor_unit_last(self, v: S) -> bool:
+        """constructor whose last size is the literal 1: zeros((*batch_size, 1))"""
+        v = nf.strip(v)
+        fn = nf._fn(v)
+        if fn not in ("torch.zeros", "torch.ones", "torch.full", "torch.empty", "torch.rand", "torch.randint"):
+            return False
+        plain = _plain_args(v.args[1:])
+        size = _kw(v.args[1:], "size")
+        if size is not None:
+            plain = [size]
+        if not plain:
+            return False
+        first = plain[0]
+        items = list(first.args) if isinstance(first, S) and first.op in ("tuple", "list") else (plain if fn != "torch.full" else [])
+        return bool(items) and _cint(items[-1]) == 1
+
+    def unit_last(self, s: S, depth=0) -> bool:
+        """provably size 1 on the last axis"""
+        if depth > 20 or not isinstance(s, S):
+            return False
+        if s.op == "meth" and s.args[1] == "unsqueeze" and len(s.args) > 2 and _cint(s.args[2]) == -1:
+            return True
+        if s.op == "cell0":
+            return s.args[1] in self.cell_unit_last
+        if s.op == "meth" and s.args[1] in ("float", "int", "long", "bool", "to", "clone", "contiguous", "detach"):
+            return self.unit_last(s.args[0], depth + 1)
+        if s.op == "sub":
+            idx = s.args[1]
+            comps = list(idx.args) if idx.op == "tuple" else [idx]
+            if comps and comps[-1].op == "const" and comps[-1].args[0] is None and (len(comps) > 1 and comps[0].op in ("ellipsis", "slice")):
+                return True
+        if s.op == "meth" and s.args[1] in REDUCERS:
+            kd = _kw(s.args[2:], "keepdim") or _kw(s.args[2:], "keepdims")
+            d = _kw(s.args[2:], "dim") or (_plain_args(s.args[2:])[0] if _plain_args(s.args[2:]) else None)
+            return kd is not None and vg.is_const(kd, True) and d is not None and _cint(d) == -1
+        if s.op in ("loopvar",) and len(s.args) > 1 and isinstance(s.args[1], S):
+            return self.unit_last(s.args[1], depth + 1)
+        return False
 
     def _ctor_rank(self, v: S) -> Optional[int]:
         v = nf.strip(v)
         fn = nf._fn(v)
-        if fn in ("torch.zeros", "torch.ones", "torch.full", "torch.empty", "torch.rand", "torch.randint"):
+        if fn in ("torch.zeros", "torch.ones", "torch.full", "torch.empty", "torch.rand", "torch.randint", "torch.FloatTensor", "torch.Tensor", "torch.randn"):
             plain = _plain_args(v.args[1:])
             size = _kw(v.args[1:], "size")
             if size is not None:
                 plain = [size]
+            if fn == "torch.randint":
+                tup = [x for x in plain if isinstance(x, S) and x.op in ("tuple", "list")]
+                plain = tup[:1]
             if not plain:
                 return None
             first = plain[0]
@@ -112,6 +160,8 @@ class RankFacts:
             if fn == "torch.full":
                 return None
             return self._count(plain)
+        if v.op == "meth" and v.args[1] == "sample" and len(v.args) == 3 and isinstance(v.args[2], S) and v.args[2].op in ("tuple", "list"):
+            return self._count(v.args[2].args)   # sampler.sample((*batch_size, n, 2))
         return None
 
     def _count(self, items) -> Optional[int]:
@@ -152,8 +202,26 @@ class RankFacts:
         if f and s.id in f:
             return f[s.id]
         fn0 = nf._fn(s)
-        if fn0 in ("torch.zeros", "torch.ones", "torch.full", "torch.empty"):
-            return self._ctor_rank(s)
+        if fn0 in ("torch.zeros", "torch.ones", "torch.full", "torch.empty", "torch.FloatTensor", "torch.rand", "torch.randn", "torch.randint") or (s.op == "meth" and s.args[1] == "sample"):
+            r0 = self._ctor_rank(s)
+            if r0 is not None or s.op != "meth":
+                return r0
+        if s.op in ("phi", "ifexp"):
+            rs = {self.rank(a, depth + 1) for a in s.args[1:] if isinstance(a, S) and a.op != "undef"}
+            return rs.pop() if len(rs) == 1 and None not in rs else None
+        if fn0 in ("torch.cat", "torch.concat") and len(s.args) >= 2:
+            items = nf._seq_items(s.args[1]) or []
+            rs = {self.rank(a, depth + 1) for a in items if isinstance(a, S)} - {None}
+            return rs.pop() if len(rs) == 1 else None
+        if fn0 == "torch.stack" and len(s.args) >= 2:
+            items = nf._seq_items(s.args[1]) or []
+            rs = {self.rank(a, depth + 1) for a in items if isinstance(a, S)} - {None}
+            return rs.pop() + 1 if len(rs) == 1 else None
+        if fn0 in ("torch.abs", "torch.exp", "torch.log", "torch.sqrt", "torch.clamp", "torch.round", "torch.floor", "torch.ceil", "torch.nan_to_num") and len(s.args) >= 2 and isinstance(s.args[1], S):
+            return self.rank(s.args[1], depth + 1)
+        if fn0 is not None and fn0.endswith(":get_distance") and len(s.args) >= 3:
+            rs = [self.rank(a, depth + 1) for a in s.args[1:3] if isinstance(a, S)]
+            return max(rs) - 1 if rs and all(r is not None for r in rs) else None
         if fn0 in ("torch.zeros_like", "torch.ones_like", "torch.full_like") and len(s.args) >= 2 and isinstance(s.args[1], S):
             return self.rank(s.args[1], depth + 1)
         s0 = s
@@ -172,6 +240,17 @@ class RankFacts:
             return None
         if s.op in ("inv", "neg", "not"):
             return self.rank(s.args[0], depth + 1)
+        if fn0 is not None and fn0.endswith(":gather_by_index") and len(s.args) >= 3 and isinstance(s.args[1], S) and isinstance(s.args[2], S):
+            # ops.gather_by_index(src, idx, dim=1, squeeze=True): the gathered axis disappears iff idx selects ONE entry per row
+            rsrc = self.rank(s.args[1], depth + 1)
+            ridx = self.rank(s.args[2], depth + 1)
+            dim = _kw(s.args[3:], "dim")
+            sq = _kw(s.args[3:], "squeeze")
+            if rsrc is None or ridx is None or (dim is not None and _cint(dim) != 1) or (sq is not None and not vg.is_const(sq, True)):
+                return None
+            if ridx == 1 or (ridx == 2 and self.unit_last(s.args[2])):
+                return rsrc - 1
+            return None
         if fn0 == "torch.where" and len(s.args) == 4:
             rs = [self.rank(a, depth + 1) for a in s.args[1:] if isinstance(a, S) and not is_scalarish(a)]
             if rs and all(r is not None for r in rs):
@@ -179,8 +258,12 @@ class RankFacts:
             return None
         if s.op == "meth":
             base, name = s.args[0], s.args[1]
-            if name in ("float", "int", "long", "bool", "to", "clone", "contiguous", "detach", "double", "abs", "exp", "log", "clamp", "scatter", "masked_fill", "type_as"):
+            if name in ("float", "int", "long", "bool", "to", "clone", "contiguous", "detach", "double", "abs", "exp", "log", "clamp", "scatter", "masked_fill", "type_as", "transpose",
+                        "gather", "scatter_", "scatter_add", "scatter_add_", "uniform_", "normal_", "fill_", "clamp_", "round", "floor", "ceil", "sqrt", "cumsum", "sort", "flip", "roll",
+                        "masked_fill_", "expand_as", "index_select", "softmax", "log_softmax", "neg", "sigmoid", "tanh", "relu", "cpu", "cuda", "half"):
                 return self.rank(base, depth + 1)
+            if name in ("repeat", "permute") and len(s.args) > 2 and not any(isinstance(x, S) and x.op in ("starred", "kw") for x in s.args[2:]):
+                return len(s.args) - 2
             if name == "unsqueeze":
                 r = self.rank(base, depth + 1)
                 return None if r is None else r + 1
@@ -196,6 +279,11 @@ class RankFacts:
                     return r
                 return r - 1
         if s.op == "sub":
+            b0 = nf.strip(s.args[0])
+            if _cint(s.args[1]) is not None and ((b0.op == "meth" and b0.args[1] in ("max", "min", "sort", "topk", "median", "kthvalue", "cummax", "cummin") and len(b0.args) > 2) or
+                                                 (nf._fn(b0) in ("torch.max", "torch.min", "torch.sort", "torch.topk") and len(b0.args) > 2)):
+                # (values, indices) = x.max(dim): picking a tuple element, not a row
+                return self.rank(b0, depth + 1)
             r = self.rank(s.args[0], depth + 1)
             if r is None:
                 return None
@@ -335,7 +423,19 @@ def rank_mismatch(n: S, ranks: Optional[RankFacts]) -> Optional[Hit]:
     """[B] (rank 1) combined elementwise with a batch-leading tensor of rank >= 2: trailing-axis
     broadcasting aligns the batch axis of the first with a non-batch axis of the second
     ([B] op [B, 1] silently becomes [B, B])."""
-    if ranks is None or n.op not in ELEMENTWISE or len(n.args) != 2:
+    if ranks is None:
+        return None
+    if nf._fn(n) in ("torch.where", "torch.maximum", "torch.minimum") or (n.op == "meth" and n.args[1] in ("where", "maximum", "minimum", "masked_fill")):
+        # every tensor operand of a select / elementwise max takes part in the broadcast
+        ops_ = [x for x in (n.args[1:] if n.op == "call" else [n.args[0]] + list(n.args[2:])) if isinstance(x, S) and x.op != "kw" and not is_scalarish(x)]
+        rs = [(ranks.rank(x), x) for x in ops_]
+        rs = [(r, x) for r, x in rs if r is not None]
+        if rs and min(r for r, _ in rs) == 1 and max(r for r, _ in rs) >= 2:
+            hi = max(rs, key=lambda t: t[0])[1]
+            return Hit(n, "rank-broadcast", hi, f"a rank-1 [B] operand meets a rank-{max(r for r, _ in rs)} batch-leading operand in a select / elementwise op without aligning the batch axis: "
+                       f"broadcasting yields a [.., B, B]-shaped result that mixes rows")
+        return None
+    if n.op not in ELEMENTWISE or len(n.args) != 2:
         return None
     a, b = n.args
     if not (isinstance(a, S) and isinstance(b, S)) or is_scalarish(a) or is_scalarish(b):
